@@ -16,6 +16,10 @@ type Consumer struct {
 
 	CommittedErr bool
 	CommittedRes []kafka.TopicPartition
+	// per-call scripts (by call order); when exhausted the plain fields above apply
+	CommittedScript []CommittedAnswer
+	AssignErrScript []bool
+	CommittedCalls  int
 	// Watermarks answers QueryWatermarkOffsets in call order; WmByPartition (if non-nil) answers by partition instead.
 	Watermarks    []Wm
 	WmByPartition map[int32]Wm
@@ -29,6 +33,12 @@ type Consumer struct {
 	Meta      *kafka.Metadata
 	MetaErr   bool
 	Closed    bool
+}
+
+// CommittedAnswer is one scripted answer of Committed().
+type CommittedAnswer struct {
+	Err bool
+	Res []kafka.TopicPartition
 }
 
 // Wm is one watermark answer.
@@ -48,6 +58,12 @@ func (c *Consumer) Assign(partitions []kafka.TopicPartition) error {
 	copy(cp, partitions)
 	c.Assigns = append(c.Assigns, cp)
 	c.Calls = append(c.Calls, "assign")
+	if n := len(c.Assigns); n <= len(c.AssignErrScript) && len(c.AssignErrScript) > 0 {
+		if c.AssignErrScript[n-1] {
+			return errors.New("scripted assign error")
+		}
+		return nil
+	}
 	if c.AssignErr {
 		return errors.New("scripted assign error")
 	}
@@ -61,6 +77,16 @@ func (c *Consumer) Unassign() error {
 	return nil
 }
 func (c *Consumer) Committed(partitions []kafka.TopicPartition, timeoutMs int) ([]kafka.TopicPartition, error) {
+	c.mu.Lock()
+	i := c.CommittedCalls
+	c.CommittedCalls++
+	c.mu.Unlock()
+	if i < len(c.CommittedScript) {
+		if c.CommittedScript[i].Err {
+			return nil, errors.New("scripted committed error")
+		}
+		return c.CommittedScript[i].Res, nil
+	}
 	if c.CommittedErr {
 		return nil, errors.New("scripted committed error")
 	}
